@@ -312,6 +312,21 @@ fn explain(p: usize, s: &str, a: &Result<Value, TemporalError>) -> Option<u32> {
     if agrees(p, s, all, a) {
         return Some(all);
     }
+    // ... and the same without the deviations that *reject* valid text (they turn a stack of wrongly accepted parts
+    // into a predicted rejection: a month-day given as a full date, a key-like zone name, Z in relativeTo), and
+    // without any single further deviation
+    let accepting = all & !(grammar::RX_LOWER_ZONE | grammar::RX_MD_FULL_REJECT | grammar::RX_RELTO_Z);
+    for base in [accepting, all] {
+        if agrees(p, s, base, a) {
+            return Some(base);
+        }
+        for i in 0..n {
+            let rx = base & !(1u32 << i);
+            if rx != base && agrees(p, s, rx, a) {
+                return Some(rx);
+            }
+        }
+    }
     None
 }
 
